@@ -3,6 +3,7 @@ import SuplaVerif.Model.Mqtt
 import SuplaVerif.Model.Cred
 import SuplaVerif.Model.MqttRecv
 import SuplaVerif.Gen.Consts
+import SuplaVerif.Model.MqttTopic
 import Driver.Common
 namespace Driver.MqttDrv
 open SuplaVerif Driver
@@ -75,6 +76,13 @@ def step (st : MqttRecv.RState) (toks : List String) : MqttRecv.RState × List S
       match packHeader t f r with
       | none => (st, ["PACKHDR ERR"])
       | some h => (st, [s!"PACKHDR {h.length} {hexOrDash h}"])
+    | _, _, _ => (st, ["BADOP"])
+  | ["topic", dv, t, m] =>
+    match Bytes.ofHex dv, Bytes.ofHex t, Bytes.ofHex m with
+    | some d, some tp, some ms =>
+      match parserSetOn d tp ms with
+      | some (ch, on) => (st, [s!"SETON 1 {ch} {on}"])
+      | none => (st, ["SETON 0 0 0"])
     | _, _, _ => (st, ["BADOP"])
   | ["val", u, v, p] =>
     match v.toNat?, p.toNat? with
